@@ -46,9 +46,15 @@ class DI_Operation:
 
 def _truncating_immediates(tree: ast.AST) -> list[ast.Call]:
     out = []
-    for fn in [n for n in ast.walk(tree) if isinstance(n, ast.FunctionDef) and n.name == "__init__"]:
+    for fn in [n for n in ast.walk(tree) if isinstance(n, ast.FunctionDef)]:
         for c in [x for x in ast.walk(fn) if isinstance(x, ast.Call)]:
-            if call_attr(c) == "IntegerAttr" and c.args and re.search(r"imm|offset|immediate", unparse(c.args[0])) and any(k.arg == "truncate_bits" and unparse(k.value) == "True" for k in c.keywords):
+            if not (call_attr(c) in ("IntegerAttr", "from_int_and_width") and c.args and any(k.arg == "truncate_bits" and unparse(k.value) == "True" for k in c.keywords)):
+                continue
+            # (a) an instruction constructor wrapping its immediate parameter; (b) any function of a lowering wrapping
+            # a value into an immediate-typed attribute (si32 / ui32 / i32 immediates of the x86 dialect)
+            in_ctor = fn.name == "__init__" and re.search(r"imm|offset|immediate", unparse(c.args[0]))
+            imm_typed = len(c.args) > 1 and re.search(r"\b(si|ui|i)(8|16|32)\b", unparse(c.args[1]))
+            if in_ctor or (fn.name != "__init__" and imm_typed):
                 out.append(c)
     return out
 
@@ -137,12 +143,15 @@ def check(idx: Index, rep: Report, tier: str) -> str:
     if len(_truncating_immediates(ast.parse(POSITIVE_TRUNC))) != 1:
         raise AnalysisError("immediate-truncation detector self-check failed")
     r.ok("positive-example", "detector matches the built-in positive example")
-    hits = _truncating_immediates(idx.module(OPS).tree)
-    if hits:
-        for c in hits:
-            r.fail(f"{OPS}:{c.lineno}", Finding("C21.R5", "xdsl.dialects.x86.ops", f"immediate-truncated:{unparse(c)[:50]}", f"`{unparse(c)}` wraps the immediate modulo 2**32: a 64-bit constant such as 5000000000 compiles to a different value instead of being rejected", f"{OPS}:{c.lineno}"))
-    else:
-        r.ok(OPS, f"{OPS}: no constructor builds an immediate with truncate_bits=True")
+    mods = [OPS] + sorted(m.relpath for m in idx.modules.values() if m.relpath.startswith("xdsl/backend/x86/"))
+    for rel in mods:
+        mi = idx.module(rel)
+        hits = _truncating_immediates(mi.tree)
+        if hits:
+            for c in hits:
+                r.fail(f"{rel}:{c.lineno}", Finding("C21.R5", mi.name, f"immediate-truncated:{unparse(c)[:50]}", f"`{unparse(c)}` wraps the immediate modulo 2**32: a 64-bit constant such as 5000000000 (or 4294967295, which `mov r64, imm32` sign-extends to -1) compiles to a different value instead of being rejected", f"{rel}:{c.lineno}"))
+        else:
+            r.ok(rel, f"{rel}: no immediate is built with truncate_bits=True")
 
     return (
         "Reference-table agreement of the ABI tables (System V AMD64 psABI) and register encoding tables, pairing rule "
